@@ -31,6 +31,8 @@ var c11HdrCoq = []string{"hAuth", "hWww", "hCookie", "hCookie2", "hToken"} // co
 var c11Sensitive = map[string]bool{"Authorization": true, "Www-Authenticate": true, "Cookie": true, "Cookie2": true}
 
 type c11Hit struct {
+	Range  string `json:"range,omitempty"` // Range header (parallel downloads)
+	Step   int    `json:"-"`               // path index (parallel downloads)
 	Host   string `json:"host"`
 	H      [5]int `json:"headers"` // number of values received of each of c11Hdr
 	Method string `json:"method"`
@@ -56,6 +58,10 @@ type c11Origin struct {
 func newC11Origin() (*c11Origin, error) {
 	o := &c11Origin{hits: map[string][]c11Hit{}, scripts: map[string]*c11Script{}}
 	o.srv = &http.Server{Handler: http.HandlerFunc(func(w http.ResponseWriter, q *http.Request) {
+		if strings.HasPrefix(q.URL.Path, "/pd/") {
+			o.servePD(w, q)
+			return
+		}
 		id := q.Header.Get("X-Chain")
 		body, _ := io.ReadAll(q.Body)
 		o.mu.Lock()
@@ -75,7 +81,9 @@ func newC11Origin() (*c11Origin, error) {
 			}
 		}
 		if sc != nil && step < len(sc.loc) {
-			w.Header().Set("Location", sc.loc[step])
+			if sc.loc[step] != "" {
+				w.Header().Set("Location", sc.loc[step])
+			} // else: a scripted final answer of one attempt (e.g. 503)
 			w.WriteHeader(sc.status[step])
 			return
 		}
@@ -433,6 +441,10 @@ type c11Result struct {
 
 // runChain sends the plan's first request through [c] and reports what the origin saw.
 func runChain(o *c11Origin, c *req.Client, id string, p c11Plan, gate *c11Gate) c11Result {
+	return runChainWith(o, c, id, p, gate, nil)
+}
+
+func runChainWith(o *c11Origin, c *req.Client, id string, p c11Plan, gate *c11Gate, tweak func(*req.Request)) c11Result {
 	o.mu.Lock()
 	o.scripts[id] = &c11Script{loc: p.loc, status: p.status, gate: gate}
 	o.mu.Unlock()
@@ -452,6 +464,9 @@ func runChain(o *c11Origin, c *req.Client, id string, p c11Plan, gate *c11Gate) 
 				rq.Headers.Add(n, vals[k][v])
 			}
 		}
+	}
+	if tweak != nil {
+		tweak(rq)
 	}
 	var resp *req.Response
 	var err error
@@ -630,6 +645,8 @@ func c11EndToEnd(r *hk.Run, rng *hk.Rand) {
 	c11Single(r, rng, o, r.Scale(150, 3000))
 	c11Clients(r, rng, o, r.Scale(70, 1400))
 	c11Concurrent(r, rng, o, r.Scale(120, 2400))
+	c11Retries(r, rng, o, r.Scale(60, 1200))
+	c11Downloads(r, rng, o, r.Scale(60, 1200))
 }
 
 // (b1) one chain through a fresh client
